@@ -374,8 +374,9 @@ Definition too_long (ml : option Z) (out : str) : bool :=
   match ml with Some m => Z.ltb m (Z.of_nat (length out)) | None => false end.
 
 (* numeric_factory + NM.__init__ + BaseDataType.__init__ + to_er7 *)
+Definition none_text : str := "None".     (* '{0}'.format(None): NM() / SI() are length-checked too *)
 Definition impl_NM (strict : bool) (ml : option Z) (s : str) : result str :=
-  if nilb s then Ok []
+  if nilb s then (if strict && too_long ml none_text then Err (HL7 EMaxLengthReached) else Ok [])
   else match decimal_parse s with
        | None => Err PyValueError
        | Some d => let out := decimal_str d in
@@ -404,7 +405,7 @@ Definition int_parse (text : str) : option str :=
   else None.
 
 Definition impl_SI (strict : bool) (ml : option Z) (s : str) : result str :=
-  if nilb s then Ok []
+  if nilb s then (if strict && too_long ml none_text then Err (HL7 EMaxLengthReached) else Ok [])
   else match int_parse s with
        | None => Err PyValueError
        | Some out => if strict && too_long ml out then Err (HL7 EMaxLengthReached) else Ok out
@@ -591,6 +592,14 @@ Definition dedup_offset (s : str) : str :=
   match off_at_end s with
   | Some o => remove_all o 0 s ++ o
   | None => s
+  end.
+
+(* ... and what is left after removing every copy is a well-formed body: the exact family of
+   values accepted beyond `with_offset body_ok` *)
+Definition offset_defect (body_ok : str -> bool) (s : str) : bool :=
+  match off_at_end s with
+  | Some o => negb (streqb (remove_all o 0 s) (take (length s - 5) s)) && body_ok (remove_all o 0 s)
+  | None => false
   end.
 
 (* text Python's int() accepts although it is not a plain digit string *)
